@@ -25,13 +25,13 @@ THEOREMS = [
     'Pysmi.Reader.C14_never_truncated',
     'Pysmi.Reader.C14_zip_lookup_sound',
     'Pysmi.Reader.C14_zip_members_top',
-    'Pysmi.Reader.C14_url_kind', 'Pysmi.Reader.C14_url_target', 'Pysmi.Reader.C14_plain_path_whole', 'Pysmi.Tree.C14_tree_count', 'Pysmi.Tree.C14_tree_every_dir_searched', 'Pysmi.Tree.C14_tree_root_first',
+    'Pysmi.Reader.C14_url_kind', 'Pysmi.Reader.C14_url_target', 'Pysmi.Reader.C14_plain_path_whole', 'Pysmi.Tree.C14_tree_count', 'Pysmi.Tree.C14_tree_every_dir_searched', 'Pysmi.Tree.C14_tree_root_first', 'Pysmi.Tree.C14_tree_parent_first',
 ]
 TECHNIQUE = ('Lean 4 theorems about a model of getMibVariants, .index precedence, directory-tree lookup, the ZIP member table '
              '(any nesting) and URL->reader kind; differential correspondence against FileReader/ZipReader/getReadersFromUrls on '
              'generated directory trees (linked sub-directories, sub-second time stamps, undecodable index lines) and nested archives; getSubdirs modelled as the pre-order of a nested tree (Model/Tree, structural induction) and compared with the reader on every generated tree built by an independent walk; oracle search')
 LEVEL_TEXT = ('Proved in Lean for every ASCII module name, every setting of the matching switches, every extension list, every '
-              'directory tree (the reader searches the directories of the tree in pre-order, each once, whatever the depth, linked directories included: C14_tree_count, C14_tree_every_dir_searched, C14_tree_root_first, compared with getSubdirs on every generated tree; only the order of a directory listing is a model input) and archives nested to any depth: every file name tried is a '
+              'directory tree (the reader searches the directories of the tree in pre-order, each once, whatever the depth, linked directories included: C14_tree_count, C14_tree_every_dir_searched, C14_tree_root_first, C14_tree_parent_first, compared with getSubdirs on every generated tree; only the order of a directory listing is a model input) and archives nested to any depth: every file name tried is a '
               'documented variant (never an unrelated name); for every setting of the switches the variant list exists and every spelling switched on is tried with every extension and every fuzzy form (C14_variants_total, C14_variants_complete_all); .index is a dictionary of its lines - last line for a module counts, lines without two fields map nothing - and its '
               'entry is the only file tried; the directory lookup returns a regular file of the tree named like a tried variant and '
               'reports not-found exactly when no directory holds one; every ZIP member-table entry is the content and mtime of an '
